@@ -7,7 +7,7 @@
 (* wide conversions) agree with it.  With EmitVec it also prints one       *)
 (* spec -> impl vector per (day, cycle, second-of-day) selected.           *)
 (***************************************************************************)
-EXTENDS DateTime, TLC, Json
+EXTENDS DateTime, AlgoCal, TLC, Json
 CONSTANTS Years,       \* years-in-cycle whose chains are walked (0..399 = the whole cycle)
           EmitVec,     \* BOOLEAN
           Cycles,      \* cycle indices vectors are emitted for
@@ -45,6 +45,32 @@ DayOK ==
   /\ UdtInv(UdtRec(<<3, vN, 3661>>, 999999999))
   /\ UdtInv(UdtOfFields(1600 + vY, vMo, vD, 23, 59, 60, 5))
 
+\* ---- the algorithm layer (AlgoCal.tla: the code's division cascade, year formulas, week day, year day) refines the axioms ----
+\* day vN of the cycle counted from 0000-01-01, seen from the code's origin 2000-03-01: March 1st of year 0 is day 60 of the cycle,
+\* and January / February of year 0 belong to the previous March-based cycle
+AlgoDay(clamp) ==
+  LET rd == (vN - 60) % DaysPerCycle
+      back == IF vN >= 60 THEN 0 ELSE -1
+      r == ACascade(rd, clamp)
+  IN r.yoff + 400 * back = vY /\ r.mo = vMo /\ r.d = vD
+AlgoCalOK ==
+  /\ AlgoDay(TRUE)
+  /\ \A base \in {-800, -400, 0, 1600, 2000} :         \* negative years, year 0, both branches of the 1970 split (1600..1999), after 2000
+       LET yy == base + vY
+           days == ((base \div 400) - 4) * DaysPerCycle + vN - DBYTab[370]          \* days from 1970-01-01 = (cycle 4, year-in-cycle 370)
+       IN /\ AIsLeap(yy) = IsLeap(vY)
+          /\ ADaysSinceEpoch(yy, vMo, vD) = days
+          /\ ((vMo = 12 /\ vD = 31) => ADaysSinceEpoch(yy, 12, 32) = days + 1)        \* "December 32nd", used by the rule evaluator
+          /\ AWeekDay(yy, vMo, vD) = (vN + 6) % 7
+          /\ AYearDay(yy, vMo, vD) = vN - DBYTab[vY]
+\* the two floor fix-ups of from_timespec, and the time-of-day split, on an interval around zero
+AlgoSplitOK ==
+  /\ \A a \in -200000..200000 : AFloorSplit(a, SecPerDay) = <<a \div SecPerDay, a % SecPerDay>>
+  /\ \A a \in -300000..300000 : AFloorSplit(a, DaysPer400) = <<a \div DaysPer400, a % DaysPer400>>
+  /\ \A rs \in 0..(SecPerDay - 1) : ATimeOfDay(rs) = <<rs \div 3600, (rs % 3600) \div 60, rs % 60>>
+\* witness (required to be VIOLATED): without its clamps the cascade is wrong on the last day of a century / 4-year / 400-year block
+W_NoClamp == AlgoDay(FALSE)
+
 Hms(s) == <<s \div 3600, (s % 3600) \div 60, s % 60>>
 GmVec(c, s, via) ==
   LET t == <<c, vN, s>> a == [t |-> CDSToW(t), ns |-> 0, via |-> via]
@@ -73,5 +99,5 @@ Consts ==
   /\ Timegm(2147483647, 12, 31, 23, 59, 60, 0).ok = {} /\ Timegm(2147483647, 12, 31, 23, 59, 59, 0).ok # {}
   /\ NewDt(2147483647, 12, 31, 23, 59, 60, 0, UtcType).ok = {}
   /\ \A k \in 0..399 : IsLeap(k) = (DBYTab[k + 1] - DBYTab[k] = 366)
-Inv == DayOK /\ YearEnd /\ Emit /\ (vN = 0 => Consts)
+Inv == DayOK /\ AlgoCalOK /\ YearEnd /\ Emit /\ (vN = 0 => Consts /\ AlgoSplitOK)
 =============================================================================
